@@ -2,5 +2,6 @@ SPECIFICATION Spec
 CONSTANTS
   Caps = {1, 2, 4, 5, 6, 7, 16}
   MaxOps = 11
+  Probe = FALSE
 INVARIANTS Emit InvCredit InvNoStarvation
 CHECK_DEADLOCK FALSE
